@@ -16,6 +16,7 @@ func (e *Engine) preludeDecls() []string {
 	return []string{
 		"(declare-fun slen (Int) (_ BitVec 64))",
 		"(declare-fun strarr (Int) (Array (_ BitVec 64) (_ BitVec 8)))",
+		"(declare-fun ismapped ((Array (_ BitVec 64) (_ BitVec 8)) (_ BitVec 64)) Bool)",
 	}
 }
 
@@ -93,6 +94,9 @@ func (e *Engine) generate(prop string, only string) *runResult {
 		rr.fcs = append(rr.fcs, fc)
 		rr.funcs = append(rr.funcs, c.Name)
 		for _, o := range fc.obls {
+			if hasProp(o.Props, "thorough") && e.tier != "thorough" {
+				continue
+			}
 			if prop != "" && only == "" {
 				// obligations of the property: tagged clauses, plus untagged safety/frame/pre/cover of tagged functions
 				if len(o.Props) > 0 && !hasProp(o.Props, prop) {
@@ -117,10 +121,8 @@ func (e *Engine) solveAll(obls []*Obl, par int, timeout int, dump string) {
 		go func(i int, o *Obl) {
 			defer wg.Done()
 			defer func() { <-sem }()
-			txt := o.script(true)
-			f := writeScratch(fmt.Sprintf("o%d.smt2", i), txt)
 			if dump != "" {
-				os.WriteFile(fmt.Sprintf("%s/o%d.smt2", dump, i), []byte(txt), 0o644)
+				os.WriteFile(fmt.Sprintf("%s/o%d.smt2", dump, i), []byte(o.script(true)), 0o644)
 			}
 			to := timeout
 			if o.Canary {
@@ -129,24 +131,170 @@ func (e *Engine) solveAll(obls []*Obl, par int, timeout int, dump string) {
 					to = 5
 				}
 			}
-			o.Res = runSolvers(f, to, nil)
-			if !o.Canary && !o.ExpectSat && o.Res.Status != "unsat" && o.Res.Status != "sat" && strings.Contains(txt, "(forall ") {
-				// undecided with quantified facts: look for a counterexample in the ground context (to be validated by replay)
-				o.GroundOnly = true
-				g := writeScratch(fmt.Sprintf("o%dg.smt2", i), o.script(true))
-				r2 := runSolvers(g, to, nil)
-				os.Remove(g)
-				if r2.Status == "sat" {
-					r2.Output = "ground-context model (quantified facts dropped); first attempt: " + o.Res.Status + "\n" + r2.Output
-					o.Res = r2
-				} else {
-					o.GroundOnly = false
+			tag := fmt.Sprintf("o%d", i)
+			if !o.Canary && !o.ExpectSat {
+				// direct attempt first (short), proof by cases only if that does not decide it
+				dto := to
+				if len(o.fc.splits) > 0 && dto > 5 {
+					dto = 5
+				}
+				o.Res = decide(o, dto, tag)
+				o.GroundOnly = strings.HasPrefix(o.Res.Output, "ground-context")
+				if o.Res.Status == "unsat" || (o.Res.Status == "sat" && !o.GroundOnly) {
+					return
 				}
 			}
-			os.Remove(f)
+			if !o.Canary && !o.ExpectSat && len(o.fc.splits) > 0 && o.NItems > o.fc.splitAt {
+				// proof by cases over the contract's split dimensions (exhaustive: each dimension includes "none")
+				cases := o.fc.splits
+				ch := make(chan SolverResult, len(cases))
+				for ci, c := range cases {
+					go func(ci int, c string) {
+						o2 := *o
+						o2.Reach = and(o.Reach, c)
+						ch <- decide(&o2, to, fmt.Sprintf("%sc%d", tag, ci))
+					}(ci, c)
+				}
+				all := true
+				secs := 0.0
+				var bad SolverResult
+				for range cases {
+					r := <-ch
+					secs += r.Secs
+					if r.Status != "unsat" {
+						all = false
+						if bad.Status != "sat" {
+							bad = r
+						}
+					}
+				}
+				if all {
+					o.Res = SolverResult{Status: "unsat", Solver: fmt.Sprintf("by %d cases", len(cases)), Secs: secs}
+				} else {
+					o.Res = bad
+					o.GroundOnly = strings.HasPrefix(bad.Output, "ground-context")
+				}
+				return
+			}
+			if o.Canary || o.ExpectSat {
+				o.Res = decide(o, to, tag)
+			}
 		}(i, o)
 	}
 	wg.Wait()
+}
+
+func runVariant(o *Obl, to int, name string, model bool, set func(*Obl)) SolverResult {
+	o2 := *o
+	set(&o2)
+	f := writeScratch(name+".smt2", o2.script(model))
+	defer os.Remove(f)
+	return runSolvers(f, to, nil)
+}
+
+// decide one obligation. Dropping hypotheses is sound for proving, so weaker contexts are tried too:
+// quantified facts that are irrelevant to a goal are what makes solvers time out.
+func decide(o *Obl, to int, tag string) SolverResult {
+	if o.Canary || o.ExpectSat {
+		return runVariant(o, to, tag, true, func(*Obl) {})
+	}
+	nSpec, nEng := 0, 0
+	for _, it := range o.fc.items[:o.NItems] {
+		if strings.Contains(it, "(forall ") || strings.Contains(it, "(exists ") {
+			if strings.Contains(it, "(forall ((i!q ") {
+				nEng++
+			} else {
+				nSpec++
+			}
+		}
+	}
+	if nSpec == 0 {
+		r := runVariant(o, to, tag, true, func(*Obl) {})
+		if r.Status != "unsat" && r.Status != "sat" && nEng > 0 {
+			g := runVariant(o, to, tag+"g", true, func(x *Obl) { x.GroundOnly = true })
+			if g.Status == "sat" {
+				g.Output = "ground-context model (quantified facts dropped); first attempt: " + r.Status + "\n" + g.Output
+				return g
+			}
+		}
+		return r
+	}
+	// 1. only the engine's own array axioms (copy / append / frames)
+	r := runVariant(o, to, tag+"e", false, func(x *Obl) { x.QEngine = true })
+	if r.Status == "unsat" {
+		r.Solver += " [engine array axioms only]"
+		return r
+	}
+	// 2. the engine's axioms plus exactly one spec-level quantified fact
+	{
+		ch := make(chan SolverResult, nSpec)
+		n := 0
+		for k := 1; k <= nSpec && nSpec <= 4; k++ {
+			n++
+			go func(k int) {
+				x := runVariant(o, to, fmt.Sprintf("%so%d", tag, k), false, func(x *Obl) { x.QEngine = true; x.QOnly = k })
+				x.Solver += fmt.Sprintf(" [engine array axioms + spec fact %d of %d]", k, nSpec)
+				ch <- x
+			}(k)
+		}
+		var won *SolverResult
+		for j := 0; j < n; j++ {
+			x := <-ch
+			if x.Status == "unsat" && won == nil {
+				w := x
+				won = &w
+			}
+		}
+		if won != nil {
+			return *won
+		}
+	}
+	// 3. everything
+	full := runVariant(o, to, tag, true, func(*Obl) {})
+	if full.Status == "unsat" || full.Status == "sat" {
+		return full
+	}
+	// 3. engine axioms plus the most recent k spec facts; the most recent k facts of any kind
+	type sr struct {
+		k int
+		r SolverResult
+	}
+	ch := make(chan sr, 16)
+	started := 0
+	for k := 1; k <= nSpec && k <= 2; k++ {
+		started++
+		go func(k int) {
+			x := runVariant(o, to, fmt.Sprintf("%se%d", tag, k), false, func(x *Obl) { x.QEngine = true; x.QSuffix = k })
+			x.Solver += fmt.Sprintf(" [engine array axioms + last %d of %d spec facts]", k, nSpec)
+			ch <- sr{k, x}
+		}(k)
+	}
+	for k := 1; k < nSpec+nEng && k <= 2; k++ {
+		started++
+		go func(k int) {
+			x := runVariant(o, to, fmt.Sprintf("%sq%d", tag, k), false, func(x *Obl) { x.QSuffix = k })
+			x.Solver += fmt.Sprintf(" [last %d of %d quantified facts]", k, nSpec+nEng)
+			ch <- sr{k, x}
+		}(k)
+	}
+	var won *SolverResult
+	for j := 0; j < started; j++ {
+		x := <-ch
+		if x.r.Status == "unsat" && won == nil {
+			w := x.r
+			won = &w
+		}
+	}
+	if won != nil {
+		return *won
+	}
+	// 4. undecided: look for a counterexample in the ground context (to be validated by replay)
+	g := runVariant(o, to, tag+"g", true, func(x *Obl) { x.GroundOnly = true })
+	if g.Status == "sat" {
+		g.Output = "ground-context model (quantified facts dropped); first attempt: " + full.Status + "\n" + g.Output
+		return g
+	}
+	return full
 }
 
 func (o *Obl) ok() bool {
@@ -225,7 +373,11 @@ func main() {
 			nok++
 		}
 		if *verbose || !o.ok() {
-			fmt.Printf("%-4s [%d] %s  (%s %s %.2fs)\n", st, i, o.Name, o.Res.Status, o.Res.Solver, o.Res.Secs)
+			gm := ""
+			if o.GroundOnly {
+				gm = " ground-context"
+			}
+			fmt.Printf("%-4s [%d] %s  (%s %s %.2fs%s)\n", st, i, o.Name, o.Res.Status, o.Res.Solver, o.Res.Secs, gm)
 			if !o.ok() && o.Res.Status == "sat" {
 				var ks []string
 				for k, w := range o.Watch {
@@ -241,6 +393,11 @@ func main() {
 			if !o.ok() && o.Res.Status != "sat" {
 				fmt.Println("      ", firstLines(o.Res.Output, 3))
 			}
+		}
+	}
+	if *verbose {
+		for i, t := range e.tagList {
+			fmt.Printf("tag %d = %s\n", i+1, t)
 		}
 	}
 	fmt.Printf("%d/%d obligations discharged, %d functions, %d errors, %.1fs\n", nok, len(rr.obls), len(rr.funcs), len(rr.errors), time.Since(rr.started).Seconds())
